@@ -35,6 +35,11 @@ func (p *c02) ID() string { return "C02" }
 // hand-written templates for the situations the property names
 var c02Hand = []string{
 	"{{ 1 % 0.5 }}", "{{ 7 % '0.25' }}", "{{ x % (1/3) }}", "{{ 7 % (-1/3) }}", "{{ 7 % '' }}", "{{ 7 % null }}", "{{ 7 // 0.5 }}", "{{ 7 % (0/0) }}", "{{ 7 % (1/0) }}", "{{ (1/0) % 3 }}", "{{ 1e300 % 7 }}", "{{ 7 % 1e300 }}", "{{ (-9223372036854775808) % (-1) }}",
+	// names the executor uses itself, bound to something else by the template or the caller
+	"{% set loop = 'a' %}{% for i in arr %}{{ loop.index }}{{ loop.parent }}{{ loop.parent.index }}{% endfor %}{{ loop }}", "{% macro m(loop, _self, _context) %}{% for i in [1, 2] %}{{ loop.index }}{{ loop.parent }}{% endfor %}{{ _self }}{% endmacro %}{{ _self.m(7, 8, 9) }}{{ _self.m() }}",
+	"{% for loop in arr %}{{ loop }}{% for j in [1] %}{{ loop.parent }}{{ loop.index }}{% endfor %}{% endfor %}", "{% for i in arr %}{% set loop = i %}{{ loop.index }}{% for j in arr %}{{ loop.parent }}{% endfor %}{% endfor %}",
+	"{% set _self = 3 %}{{ _self }}{{ _self.m() }}{% macro m() %}x{% endmacro %}", "{% for k, loop in {'a': 1} %}{{ loop }}{{ k }}{% endfor %}", "{% set loop = {'parent': {'parent': 3}} %}{% for i in [1] %}{{ loop.parent.parent.parent }}{% endfor %}",
+	"{% set loop = null %}{% for i in arr %}{{ loop.parent }}{% endfor %}", "{% set loop = arr %}{% for i in loop %}{{ loop.index }}{{ loop.parent|length }}{% endfor %}",
 	"{{ 1 % 0 }}", "{{ 1 // 0 }}", "{{ 1 / 0 }}", "{{ x % z }}", "{{ 5..1 }}", "{{ (0/0)..3 }}", "{{ 1..2.5 }}", "{{ (-2)..2 }}", "{{ 3..3 }}", "{{ 'a'..'e' }}",
 	"{% for i in arr if i > 1 %}{{ i }}{% endfor %}", "{% for i in arr if false %}{{ i }}{% else %}none{% endfor %}",
 	"{{ m[1] }}", "{{ m[null] }}", "{{ m[true] }}", "{{ {(s):1}[1] }}", "{{ {'a':1}[0] }}", "{{ mi['x'] }}", "{{ mi[1.5] }}", "{{ arr['x'] }}", "{{ arr[null] }}",
@@ -84,6 +89,12 @@ func (p *c02) Init(tier string, seed int64) {
 			fmt.Sprintf("{%% for k, x in %s %%}{{ k }}={{ x }}{{ loop.length }}{%% else %%}none{%% endfor %%}{{ %s|length }}{{ %s|keys|join(',') }}{{ %s|first }}{{ %s|last }}{{ %s|merge(%s)|length }}{{ %s|json_encode }}", v, v, v, v, v, v, v, v),
 			fmt.Sprintf("{%% include %s %%}", v), fmt.Sprintf("{%% extends %s %%}", v), fmt.Sprintf("{%% import %s as q %%}{{ q.m() }}", v), fmt.Sprintf("{%% use %s %%}", v),
 			fmt.Sprintf("{%% include ['inc', %s] %%}", v), fmt.Sprintf("{{ {(%s): 1}|keys|join }}{{ [%s, %s]|join(%s) }}{{ %s ? %s : %s }}{{ %s == %s }}{{ %s in [%s] }}{{ %s starts with %s }}{{ %s matches '/' ~ %s ~ '/' }}", v, v, v, v, v, v, v, v, v, v, v, v, v, v, v))
+	}
+	// ... and bound to the names the executor uses itself, in front of the constructs that bind those names
+	for _, v := range append(c02Vars(), "null", "nan", "7", "'a'", "[1]", "{'parent': 1}", "{'parent': {'parent': x}}") {
+		p.hand = append(p.hand, fmt.Sprintf("{%% set loop = %s %%}{%% for i in arr %%}{{ loop.index }}{{ loop.parent }}{%% for j in arr %%}{{ loop.parent.index }}{{ loop.parent.parent }}{{ loop.parent.parent.parent }}{%% endfor %%}{%% endfor %%}{{ loop }}{%% for i in loop %%}{{ loop.first }}{%% endfor %%}", v),
+			fmt.Sprintf("{%% macro m(loop, _self) %%}{%% for i in [1, 2] %%}{{ loop.index }}{{ loop.parent }}{{ loop.parent.parent }}{%% endfor %%}{{ _self }}{%% endmacro %%}{%% set _self = %s %%}{{ _self.m(%s, %s) }}{{ _self.m(%s) }}", v, v, v, v),
+			fmt.Sprintf("{%% include 'inc' with {'loop': %s, '_self': %s} only %%}{%% for loop in [%s] %%}{%% for j in [1] %%}{{ loop.parent }}{{ loop.parent.parent }}{%% endfor %%}{%% endfor %%}", v, v, v))
 	}
 	// ... and to every method of a struct, as the only argument and as one of two (null included: "nul")
 	for _, v := range []string{"enil", "enilp", "eptr", "onil", "onilp", "np", "obj", "pt", "ov", "op"} {
@@ -207,7 +218,7 @@ func (p *c02) Describe(i int) interface{} {
 }
 
 // c02Inc is what the hand-written templates include and embed.
-const c02Inc = "<{{ a }}{{ k }}{% block ib %}ib{% endblock %}{% set a = 1 %}>"
+const c02Inc = "<{{ a }}{{ k }}{% block ib %}ib{% endblock %}{% set a = 1 %}{% for q in [1, 2] %}{{ loop.index }}{{ loop.parent }}{% endfor %}{{ _self }}>"
 
 func execNoPanic(env *stick.Env, name string, ctx map[string]stick.Value, budgetLen int) (out string, err error, pan interface{}, steps int64) {
 	var buf bytes.Buffer
